@@ -85,7 +85,12 @@ class C13(Scenario):
                 return ["fault", "interrupt", int(10 ** rng.uniform(0, 3.7)), op]
             return op
 
+        # the baseline snapshot hashes every pool object; in half of the runs the first
+        # comparisons happen before that (== of objects that were never hashed)
+        early = rng.random() < 0.5
         for n in range(nn):
+            if early:
+                add(n, ["pairs", None, sample_pairs(n, rng.randint(4, 16)), False])
             add(n, ["snapall", None, 1, HI], "snap")
         weights = {"pairs": 6, "triples": 2, "inset": 2, "roundtrip": 3, "snap": 2, "gc": 0.3}
         if nn > 1 and arm != "local":
